@@ -507,6 +507,7 @@ theorem step_inv (w : World) (op : Op) (hinv : Inv w) (hreg : region w op = none
     cases w.find k with
     | none => exact hinv
     | some t => simp only; split <;> first | exact hinv | exact inv_drop w k hinv
+  | nop => exact hinv
 
 theorem run_inv (w : World) (ops : List Op) (hinv : Inv w) (hc : clean w ops = true) : Inv (run w ops) := by
   induction ops generalizing w with
